@@ -101,6 +101,10 @@ structure Core where
   cres     : CRes
   dropped  : Bool            -- ghost: some Close found the channel full and dropped its cancel signal
   panicked : Bool            -- ghost: the service's own goroutine has panicked at least once
+  latched  : Bool            -- service kind: false = start-once/stop-once (StateMachine: tickers, coordinator);
+                             --   true = restartable with a latched close signal (result store: `close chan bool` of capacity 1,
+                             --   no StateMachine — `Start` can run again after a panic, `Close` never waits)
+  latch    : Bool            -- latched kind: a close signal is sitting in the service's `close` channel
 deriving DecidableEq, Repr
 
 inductive CLabel
@@ -113,6 +117,19 @@ def allCLabels : List CLabel :=
   [.sInit, .sSpawn, .sStore, .sSel, .coolElapsed, .sRespawn, .sClear,
    .gCall, .gStarted, .gStopSeen, .gPanic, .gSendNil, .gSendErr, .gSendStopped,
    .closeCall, .closeAgain, .cLoad, .cSvcClose, .cWaitDone, .cSignal]
+
+/-- the `error` value a message carries, as far as `err != nil` is concerned: 0 = nil -/
+def Msg.errCode : Msg → Nat
+  | .nil => 0 | .svcErr => 1 | .stopped => 2 | .cancelled => 3
+
+/-- the start/close guard shared by the recoverer and by the services that keep their own `running` flag (metadata
+    store, runner, v2 report coordinator): Start is refused when the flag is set, Close when it is not -/
+def flagStartRefuses (running : Bool) : Bool := running
+def flagCloseRefuses (running : Bool) : Bool := !running
+
+/-- the ticker loop skips a tick (spawns no `Process` goroutine) when it has no getter; the label `tick` stands for a
+    tick on which this is false (every flow of the plugin passes a getter) -/
+def tickSkipped (getter nilFn : Nat) : Bool := decide (getter = nilFn)
 
 /-- where S continues after receiving `m` (serviceStart's `case err := <-m.stopped`) -/
 def afterRecv : Msg → SPc
@@ -144,13 +161,17 @@ def stepCore (c : Core) : CLabel → Option Core
   -- G ------------------------------------------------------------------
   | .gCall =>
     if c.nCall = 0 then none
+    else if c.latched then some { c with nCall := c.nCall - 1, nRun := c.nRun + 1 }   -- no StateMachine: straight into the loop
     else if c.svc = .unstarted then some { c with nCall := c.nCall - 1, nStarting := c.nStarting + 1, svc := .starting }
     else some { c with nCall := c.nCall - 1, nSendErr := c.nSendErr + 1 }   -- StartOnce: "has already been started once"
   | .gStarted =>
     if c.nStarting = 0 then none
     else some { c with nStarting := c.nStarting - 1, nRun := c.nRun + 1, svc := .started }
-  | .gStopSeen =>   -- `<-ctx.Done()`: return nil; deferred `close(t.done)`
-    if c.nRun = 0 ∨ c.stopReq = false then none
+  | .gStopSeen =>   -- `<-ctx.Done()`: return nil; deferred `close(t.done)`   (latched kind: `case <-s.close:` return nil)
+    if c.latched then
+      (if c.nRun = 0 ∨ c.latch = false then none
+       else some { c with nRun := c.nRun - 1, latch := false, nSendNil := c.nSendNil + 1 })
+    else if c.nRun = 0 ∨ c.stopReq = false then none
     else some { c with nRun := c.nRun - 1, done := true, nSendNil := c.nSendNil + 1 }
   | .gPanic =>      -- panic in the service goroutine: deferred `close(t.done)`, recovered in recoverableStart; StateMachine untouched
     if c.nRun = 0 then none
@@ -167,7 +188,10 @@ def stepCore (c : Core) : CLabel → Option Core
     else none
   | .cSvcClose =>
     if c.cpc = .svcClose then
-      (if c.svc = .started then some { c with cpc := .waitDone, svc := .stopping, stopReq := true }
+      (if c.latched then
+         (if c.latch then none                                   -- `s.close <- true` on a full channel: blocks
+          else some { c with cpc := .signal, latch := true })    -- signal latched whether or not Start is running; no wait
+       else if c.svc = .started then some { c with cpc := .waitDone, svc := .stopping, stopReq := true }
        else some { c with cpc := .signal, svcErr := true })
     else none
   | .cWaitDone => if c.cpc = .waitDone ∧ c.done then some { c with cpc := .signal, svc := .stopped } else none
@@ -249,11 +273,15 @@ def run (fx : Fixes) : State → List Label → Option State
 def init : Core :=
   { spc := .init, running := false, buf := none, svc := .unstarted, stopReq := false, done := false,
     nCall := 0, nStarting := 0, nRun := 0, nSendNil := 0, nSendErr := 0, nSendStopped := 0,
-    cpc := .idle, svcErr := false, cres := .none, dropped := false, panicked := false }
+    cpc := .idle, svcErr := false, cres := .none, dropped := false, panicked := false, latched := false, latch := false }
 
 /-- start-up has quiesced: serviceStart is parked in its select, the flag is set, the service loop runs -/
 def settled : Core :=
   { init with spc := .parked, running := true, svc := .started, nRun := 1 }
+
+/-- the same for the restartable (latched-close) service kind -/
+def initL : Core := { init with latched := true }
+def settledL : Core := { initL with spc := .parked, running := true, nRun := 1 }
 
 def initS : State := { core := init, procs := 0, workers := 0, crashed := false }
 def settledS : State := { core := settled, procs := 0, workers := 0, crashed := false }
@@ -298,6 +326,14 @@ def schedSignalDropped : List CLabel :=
 /-- panic in the service's own goroutine, full cool-down, restart attempt -/
 def schedServicePanic : List CLabel :=
   startUp ++ [.gPanic, .gSendStopped, .coolElapsed, .sRespawn, .sSel, .gCall, .gSendErr, .sSel]
+
+/-- restartable kind: panic of the service goroutine, full cool-down, restart: the loop runs again -/
+def schedRestart : List CLabel := [.gPanic, .gSendStopped, .coolElapsed, .sRespawn, .sSel, .gCall]
+
+/-- restartable kind: panic, Close during the cool-down (the close signal is latched, the cancel signal buffered),
+    cool-down elapses, the restarted Start finds the latched signal and returns, serviceStart finds the cancel -/
+def schedCloseDuringCoolDownL : List CLabel :=
+  [.gPanic, .gSendStopped, .closeCall, .cLoad, .cSvcClose, .cSignal, .coolElapsed, .sRespawn, .sSel, .sClear, .gCall, .gStopSeen, .gSendNil]
 
 /-- panic in the service's own goroutine, Close during the cool-down, fair completion -/
 def schedCloseDuringCoolDown : List CLabel :=
